@@ -187,6 +187,9 @@ inline Verdict expect_C07(const WSnap& pre, const CallInfo& ci) {
     int used = pInt(o, "POINT", "USED"), aused = pInt(o, "ANALOG", "USED");
     float prate = pFloat(o, "POINT", "RATE"), arate = pFloat(o, "ANALOG", "RATE");
     std::vector<std::string> labels = pStrs(o, "POINT", "LABELS"), alabels = pStrs(o, "ANALOG", "LABELS");
+    for (int k = 2; k < 20; ++k) {   // the C3D convention for more than 255 names: LABELS2, LABELS3, … continue LABELS (an implementation that writes them must also read them in its guards)
+        std::string nm = "LABELS" + std::to_string(k); const GSnap* pg = o.group("POINT"); const GSnap* ag = o.group("ANALOG"); bool any = false;
+        if (pg && pg->find(nm.c_str())) { for (auto& x : pg->find(nm.c_str())->strs) labels.push_back(x); any = true; } if (ag && ag->find(nm.c_str())) { for (auto& x : ag->find(nm.c_str())->strs) alabels.push_back(x); any = true; } if (!any) break; }
     {   // the statement speaks of POINT:USED, POINT:RATE and POINT:LABELS: on an object loaded from a file that carries no POINT:LABELS (legal without points) its predicates are undefined
         const GSnap* pg = o.group("POINT"); bool pointDeclared = pg && pg->find("USED") && pg->find("RATE") && pg->find("LABELS");
         if (!pointDeclared && (ci.kind == K_FRAME || ci.kind == K_COL_POINT || ci.kind == K_POINT_NAME)) return v;
